@@ -1,0 +1,47 @@
+//go:build verif
+
+package authboss
+
+// Contracts for /verif (contract-based deductive verification of the real
+// code). Comment-only: no code; visible only with the build tag "verif".
+//
+// C08: requirement bits, from the statement: bit 0 = full (not half) authentication,
+// bit 1 = second factor completed.
+//@ spec reqs_ok(r, reqs) := !((reqs % 2 == 1) && sess_has(r, "halfauth")) && !(((reqs / 2) % 2 == 1) && !sess_has(r, "twofactor"))
+//@ spec redir_target(r, ab, mountPathed) :=
+//@        ite(mountPathed && len(ab.Config.Paths.Mount) != 0, path_join(ab.Config.Paths.Mount, r.URL.Path), r.URL.Path) ++
+//@        ite(len(r.URL.RawQuery) != 0, "?" ++ r.URL.RawQuery, "")
+//@
+//@ func MountedMiddleware2#1#1
+//@   property C08
+//@   requires 0 <= reqs && reqs <= 3
+//@   -- the wrapped handler runs only with the requirements met and a loaded user in the context
+//@   ensures admit_only_if: each Next.ServeHTTP(_, _, _, ?cu) => reqs_ok(r, reqs) && cu != nil &&
+//@       (ctxuser(r) != nil || (emits Store.Load(_) -> (?u, ?e) :: e == nil && u == cu))
+//@   -- ... and it does run whenever they are met and the user can be loaded
+//@   ensures admit_if: (!panics && reqs_ok(r, reqs) && (ctxuser(r) != nil || (emits Store.Load(_) -> (_, ?e) :: e == nil))) ==>
+//@       (emits Next.ServeHTTP(_, _, _) && !emits WriteHeader(_, _) && !emits Redirect(_))
+//@   -- otherwise the response is exactly the configured refusal
+//@   ensures refusal_exact: (!panics && !emits Next.ServeHTTP(_, _, _)) ==>
+//@       ite((emits Store.Load(_) -> (_, ?e) :: e != nil && e != ErrUserNotFound),
+//@           (emits WriteHeader(_, 500)) && !emits Redirect(_),
+//@       ite(failResponse == RespondNotFound, (emits WriteHeader(_, 404)) && !emits Redirect(_),
+//@       ite(failResponse == RespondUnauthorized, (emits WriteHeader(_, 401)) && !emits Redirect(_),
+//@       ite(failResponse == RespondRedirect,
+//@           (emits Redirect(?ro) :: ro.Code == 307 && ro.FollowRedirParam == false &&
+//@               ro.RedirectPath == path_join(ab.Config.Paths.Mount, "/login?" ++ encode_values1("redir", redir_target(r, ab, mountPathed)))) &&
+//@           !emits WriteHeader(_, _),
+//@           !emits WriteHeader(_, _) && !emits Redirect(_)))))
+//@   ensures one_status: each WriteHeader(_, ?c) => !(before WriteHeader(_, _)) && (c == 404 || c == 401 || c == 500)
+//@   ensures storage_error_500: (emits Store.Load(_) -> (_, ?e) :: e != nil && e != ErrUserNotFound) ==>
+//@       ((emits WriteHeader(_, 500)) && !emits Next.ServeHTTP(_, _, _))
+//@   ensures never_touches_state: !emits Sess.Put(_, _) && !emits Sess.Del(_) && !emits Cook.Put(_, _) && !emits Store.Save(_)
+//@   ensures no_panic: !panics
+//@
+//@ func MountedMiddleware
+//@   property C08
+//@   -- the deprecated flag form maps onto the requirement bits
+//@   ensures flags_map_to_bits: fname(result) == "MountedMiddleware2#MountedMiddleware2$1" &&
+//@       bound(result, "reqs") == ite(forceFullAuth, 1, 0) + ite(force2fa, 2, 0) &&
+//@       bound(result, "failResponse") == ite(redirectToLogin, RespondRedirect, RespondNotFound) &&
+//@       bound(result, "mountPathed") == mountPathed && bound(result, "ab") == ab
